@@ -14,6 +14,9 @@ functions over the two declared bounds, so that the C19 theorems are re-checked 
                      objects by identity), `structural` (a helper that recurses through get_type() and compares the
                      aggregate class at every level), `structuralNoKind` (recursion without comparing the class)
 
+  builtinMethod      which container method each EXPRESS built-in function of Builtin.py (SIZEOF HIINDEX LOINDEX HIBOUND LOBOUND
+                     VALUE_UNIQUE) returns, after its `isinstance(V, Aggregate)` guard
+
 Supported expression forms: integer literals, bound_1/bound_2 (local or self._bound_N), + - *, unary -, parentheses.
 Anything else raises = broken tie.
 """
@@ -140,8 +143,44 @@ def _cmp_mode(repo):
     return found[0]
 
 
+BI = "src/exp2python/python/stepcode/Builtin.py"
+BUILTINS = [("SIZEOF", "sizeof"), ("HIINDEX", "hiindex"), ("LOINDEX", "loindex"), ("HIBOUND", "hibound"), ("LOBOUND", "lobound"),
+            ("VALUE_UNIQUE", "valueUnique")]
+METHODS = {"get_size": "size", "get_hiindex": "hiindex", "get_loindex": "loindex", "get_hibound": "hibound",
+           "get_lobound": "lobound", "get_value_unique": "unique"}
+
+
+def _builtins(repo):
+    tree = ast.parse(open(os.path.join(repo, BI)).read())
+    fns = {n.name: n for n in tree.body if isinstance(n, ast.FunctionDef)}
+    out = {}
+    for py, lean in BUILTINS:
+        if py not in fns:
+            raise ValueError(f"Builtin.{py} not found")
+        fn = fns[py]
+        if len(fn.args.args) != 1:
+            raise ValueError(f"Builtin.{py}: expected one parameter")
+        v = fn.args.args[0].arg
+        body = [n for n in fn.body if not (isinstance(n, ast.Expr) and isinstance(n.value, ast.Constant))]
+        if len(body) != 2:
+            raise ValueError(f"Builtin.{py}: expected a guard and a return")
+        g, r = body
+        ok_guard = (isinstance(g, ast.If) and isinstance(g.test, ast.UnaryOp) and isinstance(g.test.op, ast.Not)
+                    and ast.unparse(g.test.operand).replace(" ", "") == f"isinstance({v},Aggregate)"
+                    and len(g.body) == 1 and isinstance(g.body[0], ast.Raise) and not g.orelse)
+        if not ok_guard:
+            raise ValueError(f"Builtin.{py}: the `if not isinstance({v}, Aggregate): raise …` guard is not as modelled")
+        if not (isinstance(r, ast.Return) and isinstance(r.value, ast.Call) and not r.value.args
+                and isinstance(r.value.func, ast.Attribute) and isinstance(r.value.func.value, ast.Name)
+                and r.value.func.value.id == v and r.value.func.attr in METHODS):
+            raise ValueError(f"Builtin.{py}: `return {v}.<query method>()` not found")
+        out[lean] = METHODS[r.value.func.attr]
+    return out
+
+
 def extract(repo):
     mode = _cmp_mode(repo)
+    bi = _builtins(repo)
     src = open(os.path.join(repo, REL)).read()
     tree = ast.parse(src)
     cls = {n.name: n for n in tree.body if isinstance(n, ast.ClassDef)}
@@ -185,6 +224,16 @@ def setLoIndex : Int := {lo["SET"]}
 inductive BaseCmp | identity | structural | structuralNoKind
   deriving DecidableEq, Repr
 def elementBaseCmp : BaseCmp := .{mode}
+
+/-- the query methods of the containers -/
+inductive Query | size | hiindex | loindex | hibound | lobound | unique
+  deriving DecidableEq, Repr
+/-- the EXPRESS built-in functions over aggregates defined in {BI} -/
+inductive BFn | sizeof | hiindex | loindex | hibound | lobound | valueUnique
+  deriving DecidableEq, Repr
+/-- `F(V)`: `if not isinstance(V, Aggregate): raise TypeError` and then `return V.<method>()` -/
+def builtinMethod : BFn → Query
+{chr(10).join(f"  | .{k} => .{v}" for k, v in bi.items())}
 
 end StepModel.Generated
 """
